@@ -275,7 +275,8 @@ def evalPrefix (prefixes : Std.HashMap String Numeric) : Expr → Except String 
 /-- `Dimensionality::pow` (multiplies in place; keeps zero entries) -/
 def dimPowRaw (d : Dim) (e : Int) : Dim := d.map fun (k, p) => (k, p * e)
 
-def i64ok (x : Int) : Bool := decide (-9223372036854775808 ≤ x) && decide (x ≤ 9223372036854775807)
+/-- inside `i64` and not `i64::MIN` (excluded so that a power can always be negated) -/
+def i64ok (x : Int) : Bool := decide (-9223372036854775807 ≤ x) && decide (x ≤ 9223372036854775807)
 
 /-- `Dimensionality::checked_pow`: `None` when a power leaves `i64` -/
 def dimPowChecked (d : Dim) (e : Int) : Except String Dim :=
